@@ -15,10 +15,10 @@ for d in sorted(glob.glob(f"{V}/seeded/*/meta.json")):
     q = m["dsim_quick_check"]
     fv = q.get("first_violation") or ""
     mm = re.search(r"oracle=(\S+) site=(\S+)", fv)
-    n += 1; c += 1 if q["caught"] else 0
+    n += 1; c += 1 if q["caught"] else 0; c2 = globals().get("c2", 0) + (1 if (not q["caught"] and m.get("also_run_against")) else 0); globals()["c2"] = c2
     cell = lambda t: (t or "").replace("|", "/").replace("\n", " ")[:260]
-    out.append(f"| {sid} | {m['property']} | {cell(m.get('summary'))} | {cell(m.get('needs'))} | {'**caught**' if q['caught'] else 'MISSED'}{' (' + m['note'] + ')' if m.get('note') else ''} | {(mm.group(1) + ' / ' + mm.group(2)) if mm else ''} |")
-out += ["", f"{c} of {n} caught by the quick checks.", ""]
+    out.append(f"| {sid} | {m['property']} | {cell(m.get('summary'))} | {cell(m.get('needs'))} | {'**caught**' if q['caught'] else ('missed by this check; caught by ' + ', '.join(m.get('also_run_against', {})) + ' - ' + m.get('note', '') if m.get('also_run_against') else 'MISSED')} | {(mm.group(1) + ' / ' + mm.group(2)) if mm else ''} |")
+out += ["", f"{c} of {n} caught by the quick check of the property they were written against, {globals().get('c2', 0)} more by the quick check of the property they actually violate.", ""]
 out += ["## Hand-written and reverse-fix mutants (`/verif/mutants/`)", "",
         "`tools/mutants_all.sh` applies each patch to a scratch copy of /repo and runs the property's quick check there. "
         "`*-EQUIVALENT-*` / `*-MUSTNOTALARM-*` patches change nothing the property can see and must NOT be reported.", "",
